@@ -156,6 +156,12 @@ def record_pristine():
         PRISTINE[cls] = fresh_observation(cls)
 
 
+def before_noise():
+    import rv.api  # noqa: F401
+
+    record_pristine()
+
+
 def run_case(ctx, case):
     a_recipe = case["a"]
     labels = set()
